@@ -197,6 +197,9 @@ def main():
             note = {"viol-impl": "implementation differs from the model AND from the spec on this input",
                     "viol-model": "implementation and model agree, both differ from the spec (no known finding covers it)",
                     "corr": "correspondence broken: implementation differs from the model but meets the spec on every input searched"}[kind]
+            for pb in proof_broken[:3]:
+                # the proof stage of this run already failed: name the theorem next to the failing input
+                note += "\nproof stage of this run: " + pb[1]
             if not recurs:
                 # timing / schedule dependent: the re-run of the (shrunk) session agreed; report what was observed
                 small_res = sr
